@@ -196,6 +196,14 @@ def drive(tier):
                           {"k": "ret", "ver": o.witver, "prog": b2l(o)} if k == "ret" else
                           ({"k": "none"} if type(o).__name__ in ("Bech32Error", "Bech32ChecksumError") else dict(exc_info(o), k="exc")))
     bitcoin.SelectParams("mainnet")
+    # an empty human-readable part is no prefix at all: the separator cannot be the first character
+    for ver, n in ((0, 20), (0, 32), (1, 10)):
+        prog = gen.rbytes(r, n)
+        t_ = sa.bech32_encode("", [ver] + sa.convertbits(list(prog), 8, 5))
+        rec_decode("", t_)
+        rec_decode("", t_.upper())
+        rec_decode("bc", t_)
+        rec_decode("bc", "bc" + t_)
     # the same strings through CBech32Data under a history of chain selections (expected prefix = the selected chain's)
     pool = []
     for chain, hrp in (("mainnet", "bc"), ("testnet", "tb"), ("regtest", "bcrt")):
